@@ -119,6 +119,12 @@ def build():
     def call(m, func, a, kw, nd):
         if isinstance(func, VBound) and isinstance(func.recv, VU) and func.recv.sort == SRC and func.name == "as_dict":
             return PAY.wrap(as_dict_of(func.recv.term))
+        if isinstance(func, VPy) and func.obj == ("setattr",) and isinstance(a[0], VPy) and a[0].obj == "cls" and a[1].obj in ("_sources", "_source_idx_to_source"):
+            g_ = "SRCS" if a[1].obj == "_sources" else "SIDX"
+            if not isinstance(a[2], VHeapRef):
+                raise EngineError("registry table replaced by something that is not a dict display")
+            m.global_syms[g_] = a[2]
+            return NONE
         if isinstance(func, VPy) and func.obj == ("contract", f"{OM}:Source.as_obj"):
             return m.call_contract(f"{OM}:Source.as_obj", a, kw)
         return NotImplemented
@@ -142,6 +148,9 @@ def build():
     A(Contract(f"{OM}:Source.list_registered_sources", params={"cls": "py:cls", "exclude_no_source": "bool"}, returns="Seq[SourceObj]", globals=G, props=P,
                ensures=["implies(exclude_no_source, result == keys_of(SRCS))", "implies(not exclude_no_source, result == keys_of(SRCS) + [NO_SOURCE])"],
                note="the registered sources in index order (plus the NoSource singleton unless excluded)"))
+    A(Contract(f"{OM}:Source.clear_registry", params={"cls": "py:cls"}, globals=G, modifies=["SRCS", "SIDX"], props=P,
+               locals={"._sources": "ODict[SourceObj,int]", "._source_idx_to_source": "Dict[int,SourceObj]"},
+               ensures=["len(keys_of(SRCS)) == 0", INV1, INV2], note="both tables are replaced by empty ones (the invariant holds trivially)"))
     A(Contract(f"{OM}:Source.all_as_dict", params={"mashumaro_dialect": "py:dialect"}, returns="Seq[Payload]", globals=G, props=P,
                ensures=["result == dicts_of(keys_of(SRCS))"], note="the ordinary payload of every registered source, in index order"))
     A(Contract(f"{OM}:Source.as_obj", params={"value": "Payload"}, returns="SourceObj", globals=G, modifies=["SRCS", "SIDX"], props=P, trusted=True,
